@@ -1190,6 +1190,10 @@ class Summaries:
                     yield st2, False
         A('Expiration::is_expired', r'Expiration::is_expired$', h_is_expired)
         A('Expiration default', r'<Expiration as Default>::default$', simple(lambda st: Agg('Expiration', (), 2, 'Never')))
+        def h_derived_default(st, fn, callee, args, dty):
+            m_ = re.match(r'<(.+) as (?:std::default::|core::default::)?Default>::default$', norm(callee))
+            yield st, self.default_of(st, m_.group(1), fn.crate)
+        A('derived Default', r'^<[A-Z][\w:]*(<.*>)? as (?:std::default::|core::default::)?Default>::default$', h_derived_default)
 
         # ---------------- cw2
         A('cw2', r'set_contract_version$', simple(lambda st, *a: ok(UNIT)))
